@@ -50,6 +50,7 @@ type XNode struct {
 	Input     *XNode
 	Output    *XNode
 	Implicit  bool // implicit case
+	Units     string // Entry.Units (only set by deviations)
 	// observed-only attributes (filled by canon, and by Attribute for the reference)
 	ReadOnly   bool
 	DefaultVal []string // DefaultValues()
